@@ -1831,7 +1831,15 @@ class SigBuilder:
                 o = tu.strip(obj)
                 if o is not None and o.get('kind') == 'DeclRefExpr' and \
                         o.get('referencedDecl', {}).get('id') in env.get('iters', {}):
-                    return env['iters'][o['referencedDecl']['id']]
+                    p = env['iters'][o['referencedDecl']['id']]
+                    env['ptype'][p] = tu.sd(e).get('ct', '') or env['ptype'].get(p, '')
+                    return p
+        if k == 'UnaryOperator' and e.get('opcode') == '*' and tu.kids(e):
+            o = tu.strip(tu.kids(e)[0], casts=True)
+            if o is not None and o.get('kind') == 'DeclRefExpr' and o.get('referencedDecl', {}).get('id') in env.get('iters', {}):
+                p = env['iters'][o['referencedDecl']['id']]
+                env['ptype'][p] = tu.sd(e).get('ct', '') or env['ptype'].get(p, '')
+                return p
         if k == 'CXXMemberCallExpr':
             sd, obj, args = tu.call_parts(e)
             nm = sd.get('q', '').split('::')[-1]
@@ -1844,6 +1852,97 @@ class SigBuilder:
                     env['ptype'][p] = tu.sd(e).get('ct', '')
                     return p
         return None
+
+    def iter_pos(self, e, env):
+        """(container path, 'begin' | 'end') if e is the begin / end iterator of a streamed container (or a copy of a
+        parameter bound to one), else None"""
+        tu = self.tu
+        x = tu.strip(e, casts=True)
+        hops = 0
+        while x is not None and hops < 4 and x.get('kind') in ('CXXConstructExpr', 'MaterializeTemporaryExpr',
+                                                                'CXXBindTemporaryExpr') and len(tu.kids(x)) == 1:
+            x = tu.strip(tu.kids(x)[0], casts=True)
+            hops += 1
+        if x is None:
+            return None
+        if x.get('kind') == 'DeclRefExpr':
+            return env.get('iterpos', {}).get(x.get('referencedDecl', {}).get('id'))
+        if x.get('kind') == 'CXXMemberCallExpr':
+            sd, obj, args = tu.call_parts(x)
+            nm = sd.get('q', '').split('::')[-1]
+            if nm in ('begin', 'cbegin', 'end', 'cend') and not args and obj is not None and \
+                    re.match(r'std::(vector|basic_string|array|deque|list)\b', sd.get('q', '')):
+                base = self.path_of(obj, env)
+                if base is not None:
+                    return (base, 'begin' if nm in ('begin', 'cbegin') else 'end')
+        return None
+
+    def iter_loop(self, n, env):
+        """(iterator decl id, container path) if the for statement n walks a whole streamed container with an iterator:
+        `for ([It it = first]; it != last; ++it)` where first / last are the begin / end of the same container and the body
+        does not touch the iterators otherwise; None if the loop has another form"""
+        tu = self.tu
+        init, condvar, cond, inc, body = n.get('inner', [])
+        ipos = dict(env.get('iterpos', {}))
+        if isinstance(init, dict) and init.get('kind'):
+            if not (init.get('kind') == 'DeclStmt' and len(tu.kids(init)) == 1 and tu.kids(tu.kids(init)[0])):
+                return None
+            iv = tu.kids(init)[0]
+            pos = self.iter_pos(tu.kids(iv)[0], env)
+            if pos is None:
+                return None
+            ipos[iv['id']] = pos
+        if not (isinstance(cond, dict) and cond.get('kind')) or (isinstance(condvar, dict) and condvar.get('kind')):
+            return None
+        c = tu.strip(cond, casts=True)
+        if c is None:
+            return None
+        if c.get('kind') == 'CXXOperatorCallExpr' and tu.sd(c).get('q', '').split('::')[-1] == 'operator!=':
+            ops = tu.kids(c)[1:]
+        elif c.get('kind') == 'BinaryOperator' and c.get('opcode') == '!=':
+            ops = tu.kids(c)
+        else:
+            return None
+        if len(ops) != 2:
+            return None
+        ids = []
+        for o in ops:
+            o = tu.strip(o, casts=True)
+            if o is None or o.get('kind') != 'DeclRefExpr':
+                return None
+            ids.append(o.get('referencedDecl', {}).get('id'))
+        if ids[0] not in ipos or ids[1] not in ipos:
+            return None
+        if ipos[ids[1]][1] == 'begin' and ipos[ids[0]][1] == 'end':
+            ids.reverse()
+        (b0, k0), (b1, k1) = ipos[ids[0]], ipos[ids[1]]
+        if (k0, k1) != ('begin', 'end'):
+            raise Undecided('iterator loop does not run from begin() to end()')
+        if b0 != b1:
+            raise Undecided('iterator loop compares iterators of `%s` and `%s`' % (show_path(b0), show_path(b1)))
+        it = ids[0]
+        i = tu.strip(inc) if isinstance(inc, dict) and inc.get('kind') else None
+        okinc = False
+        if i is not None and i.get('kind') == 'CXXOperatorCallExpr' and tu.sd(i).get('q', '').split('::')[-1] == 'operator++':
+            okinc = tu.ref_decl(tu.kids(i)[1]) == it
+        elif i is not None and i.get('kind') == 'UnaryOperator' and i.get('opcode') == '++':
+            okinc = tu.ref_decl(tu.kids(i)[0]) == it
+        if not okinc:
+            raise Undecided('iterator loop does not advance its iterator by one')
+        # inside the body the iterators may only be dereferenced
+        for x in tu.walk(body):
+            if x.get('kind') == 'DeclRefExpr' and x.get('referencedDecl', {}).get('id') in (ids[0], ids[1]):
+                par = tu.par(x)
+                hops = 0
+                while par is not None and hops < 4 and par.get('kind') in ('ImplicitCastExpr', 'ParenExpr'):
+                    par = tu.par(par)
+                    hops += 1
+                deref = par is not None and x.get('referencedDecl', {}).get('id') == it and (
+                    (par.get('kind') == 'CXXOperatorCallExpr' and tu.sd(par).get('q', '').split('::')[-1] in ('operator*', 'operator->')) or
+                    (par.get('kind') == 'UnaryOperator' and par.get('opcode') == '*'))
+                if not deref:
+                    raise Undecided('iterator `%s` is used other than by dereference inside its loop' % x.get('referencedDecl', {}).get('name'))
+        return it, b0
 
     def helper_callee(self, n, env):
         """function entry if n calls a helper (detail:: / file-local function of the networking namespace with a body)
@@ -1865,11 +1964,16 @@ class SigBuilder:
             raise Undecided('helper nesting too deep')
         args = tu.call_parts(n)[2]
         env2 = {'stream': None, 'rh': None, 'rh_ct': '', 'dir': env['dir'], 'vars': {}, 'elems': {}, 'ptype': env['ptype'],
-                'fn': callee, 'helper': True, 'retval': None, 'depth': env.get('depth', 0) + 1, 'locals': {}}
+                'fn': callee, 'helper': True, 'retval': None, 'depth': env.get('depth', 0) + 1, 'locals': {},
+                'iterpos': {}}
         pre = []
         for p, a in zip(callee.get('params', []), args):
             if self.is_stream(a, env):
                 env2['stream'] = p['id']
+                continue
+            pos = self.iter_pos(a, env)
+            if pos is not None:
+                env2['iterpos'][p['id']] = pos
                 continue
             path = self.path_of(a, env)
             if path is not None and not (path[0] == 'local' and isinstance(env['vars'].get(path[1]), Poly)):
@@ -2084,6 +2188,15 @@ class SigBuilder:
             if len(inner) != 5:
                 raise Undecided('for statement shape')
             init, condvar, cond, inc, body = inner
+            il = self.iter_loop(n, env)
+            if il is not None:
+                it, base = il
+                p_el = ('elem', base)
+                env2 = dict(env)
+                env2['iters'] = dict(env.get('iters', {}))
+                env2['iters'][it] = p_el
+                sub = self.block(body, env2)
+                return [('REPEAT', Poly.atom(('size', base)), base, sub, tu.loc(n))]
             if not (isinstance(init, dict) and init.get('kind') == 'DeclStmt' and len(tu.kids(init)) == 1):
                 raise Undecided('for-loop initialisation is not a single declaration')
             iv = tu.kids(init)[0]
@@ -2188,6 +2301,9 @@ class SigBuilder:
             return [('IF', rel, then_items, else_items, tu.loc(n))]
         if k == 'CallExpr' and self.helper_callee(n, env) is not None:
             return self.inline_helper(n, env, self.helper_callee(n, env))[0]
+        if k == 'ExprWithCleanups' and tu.strip(n) is not None and tu.strip(n).get('kind') == 'CallExpr' and \
+                self.helper_callee(tu.strip(n), env) is not None:
+            return self.inline_helper(tu.strip(n), env, self.helper_callee(tu.strip(n), env))[0]
         if k == 'ExprWithCleanups' and tu.strip(n) is not None and tu.strip(n).get('kind') == 'CXXThrowExpr':
             return [('THROW', tu.loc(n))]
         if k in ('CXXOperatorCallExpr', 'CXXMemberCallExpr', 'ExprWithCleanups'):
